@@ -13,7 +13,12 @@ RULE = ("random machine-code programs from built-in mini-assemblers (MIPS/MIPSEL
         "already-lifted blocks, optional manual edges out of the indirect jump; lifted with the real translate_function_extended, "
         "executed from a boundary/random state by falcon's executor for <= 60 native instructions, compared with the single-step "
         "reference (lift one instruction at pc, run it, follow its successors) recomputed in Lean from the dumped per-instruction IL; "
-        "structural clauses checked in Lean. non-trivial = the program has a branch and more than one lifted block")
+        "structural clauses checked in Lean. non-trivial = the program has a branch and more than one lifted block. "
+        "Assembly algorithm: for every program the translation results of falcon's work list are dumped and the Lean model "
+        "(Assemble.discover + assemble) must reproduce the recovered function exactly; in addition synthetic tables of translation "
+        "results (2-7 addresses; overlapping/incoherent instruction lists, empty instruction lists, empty windows, failing "
+        "translate_block, conditional/unconditional successors inside and outside the table, manual edges with and without guards) "
+        "are run through the REAL translate_function_extended with a table translator and compared with the model")
 TRUSTED = [
     "Lean IL semantics (FalconModel/Exec.lean, Lift.lean, FnRec.lean) for both runs; per-instruction lifting is the same translator on both sides, so instruction semantics cancel out and only recovery is tested",
     "harness/src/bin/c06.rs (mini-assemblers, oracle dump), lean/Drivers/C06.lean",
